@@ -832,6 +832,9 @@ func (ndb *nodeDB) getFirstVersion() (int64, error) {
 		ndb.resetFirstVersion(version)
 		return version, nil
 	}
+	if err := itr.Error(); err != nil {
+		return 0, err
+	}
 	// Find the first version
 	_, latestVersion, err := ndb.getLatestVersion()
 	if err != nil {
@@ -1083,7 +1086,7 @@ func (ndb *nodeDB) traversePrefix(prefix []byte, fn func(k, v []byte) error) err
 		}
 	}
 
-	return nil
+	return itr.Error()
 }
 
 // Get the iterator for a given prefix.
@@ -1213,6 +1216,9 @@ func (ndb *nodeDB) traverseOrphansWithRootkeyCache(cache *rootkeyCache, prevVers
 				curIter.Next(false)
 			}
 		}
+		if err := curIter.Error(); err != nil {
+			return err
+		}
 		pNode := prevIter.GetNode()
 
 		if orgNode != nil && bytes.Equal(pNode.hash, orgNode.hash) {
@@ -1227,7 +1233,7 @@ func (ndb *nodeDB) traverseOrphansWithRootkeyCache(cache *rootkeyCache, prevVers
 		}
 	}
 
-	return nil
+	return prevIter.Error()
 }
 
 // Close the nodeDB.
